@@ -177,6 +177,11 @@ level = "error"
                         self.port = 14_000 + (self.port % 5000) + attempt as u16 * 2;
                         continue;
                     }
+                    if last.contains("did not open port") && attempt == 0 {
+                        // a heavily loaded machine: give it one more (fresh) attempt
+                        self.stop_kill();
+                        continue;
+                    }
                     return Err(last);
                 }
             }
@@ -295,6 +300,16 @@ level = "error"
 impl Drop for Server {
     fn drop(&mut self) {
         self.stop_kill();
+    }
+}
+
+/// A start-up that merely timed out (process alive, port not open yet: a loaded machine) is a
+/// set-up problem, not a verdict; a process that EXITED during start-up is a refusal to start.
+pub fn start_failure(kind_if_refused: &str, msg: String, err: &str) -> crate::common::runner::Failure {
+    if err.contains("did not open port") {
+        crate::common::runner::Failure::new("setup_failed", format!("(start-up timed out, not judged) {}", msg))
+    } else {
+        crate::common::runner::Failure::new(kind_if_refused, msg)
     }
 }
 
